@@ -266,3 +266,31 @@ func (t *mapTrie) ClearFromChild(name, key []byte) error {
 	t.setChild(name, c)
 	return nil
 }
+
+// resync makes one namespace hold exactly the given contents (used after a
+// limited clear with no transaction open, where which keys go is adopted from
+// the primary instance).
+func (t *mapTrie) resync(n ns, want map[string][]byte) {
+	if !n.child {
+		for k := range t.m {
+			if !isChildRootKey(k) {
+				if _, ok := want[k]; !ok {
+					delete(t.m, k)
+				}
+			}
+		}
+		for k, v := range want {
+			t.m[k] = v
+		}
+		return
+	}
+	if len(want) == 0 {
+		_ = t.DeleteChild([]byte(n.name))
+		return
+	}
+	c := newMapTrie(t.ver)
+	for k, v := range want {
+		c.m[k] = v
+	}
+	t.setChild([]byte(n.name), c)
+}
